@@ -122,6 +122,38 @@ def gen_rule_case(rng):
     return ('rule', c + [MARK] + a)
 
 
+TMPL_VOCAB = ['@INPUT@', '@OUTPUT@', '@INPUT0@', '@INPUT1@', '@INPUT2@', '@OUTPUT0@', '@OUTPUT1@', '@OUTPUT3@', '@OUTDIR@', '@PLAINNAME@', '@BASENAME@',
+              'x@INPUT@y', '@INPUT@@OUTPUT@', '@@INPUT@', '@INPUT', '@INPUT0@@INPUT9@', '@OUTPUT@/@PLAINNAME@', '@BASENAME@.c', '@INPUT12@', '@', '@@',
+              'a@b', '-o@OUTPUT@', '--in=@INPUT0@', '@OUTDIR@/x\\y', '@PLAINNAME0@', '@BASENAME1@', '@OUTPUT@@OUTPUT@', '@INPUT@ @INPUT@', '@OUTPUT0',
+              '@SOURCE_ROOT@', '@BUILD_ROOT@/@OUTPUT@', 'a@CURRENT_SOURCE_DIR@b', '@SOURCE_ROOT@@SOURCE_ROOT@', '@BUILD_ROOT', '@SOURCE_ROOT@\\x']
+FILES_IN = ['a.c', 'sub/b.x.in', 'we ird$.txt', '../s/gin.txt', 'noext', '.hidden', 'd.ir/f', "q'.c", 'b\\s.c']
+FILES_OUT = ['o.out', 'sub/o2.h', 'o ut.c', 'x', '@INPUT@.o']
+
+
+def gen_tmpl_cmd(rng):
+    n = rng.randint(0, 5)
+    k = rng.random()
+    return [rng.choice(TMPL_VOCAB) if rng.random() < (0.0 if k < 0.2 else 0.5) else gen_arg(rng) for _ in range(n)]
+
+
+def gen_io(rng):
+    return (rng.sample(FILES_IN, rng.choice([0, 1, 1, 1, 2, 3])), rng.sample(FILES_OUT, rng.choice([0, 1, 1, 2])))
+
+
+def gen_path(rng):
+    k = rng.random()
+    if k < 0.5:
+        return rng.choice(['a.o', 'e.p/e.c.o', 'sub dir/x', 'C:\\x\\y', 'a:b', '$out', 'a$b', 'q|r', 'we ird', 'é/€', 'x\\', '#', "it's"])
+    return gen_arg(rng, nl=(rng.random() < 0.05), maxlen=6)
+
+
+def gen_bline(rng):
+    pl = lambda lo, hi: [gen_path(rng) for _ in range(rng.randint(lo, hi))]
+    us = lambda l: sorted(set(l))
+    return ('bline', [rng.choice(['R', 'CUSTOM_COMMAND', 'c_COMPILER', 'phony'])] + pl(1, 2) + [MARK] + pl(0, 1) + [MARK] + pl(0, 3)
+            + [MARK] + us(pl(0, 2)) + [MARK] + us(pl(0, 2)))
+
+
 ELEM_NAMES = ['ARGS', 'LINK_ARGS', 'COMMAND', 'DESC', 'description', 'pool', 'DEPFILE_UNQUOTED', 'targetdep', 'dyndep', 'DEPFILE', 'desc', 'Pool']
 
 
@@ -306,6 +338,36 @@ def run(ctx):
             cases.append(('esc', gen_list(rng, hi=6)))
         else:
             cases.append(gen_exe_case(rng))
+    # build lines, @TEMPLATE@ substitution, eval_custom_target_command, test command lines
+    scratch = ctx.mkscratch()
+    ios = [([], []), (['a.c'], ['o.out']), (['a.c', 'sub/b.x.in'], ['o.out', 'sub/o2.h'])] + [gen_io(rng) for _ in range(60)]
+    tds = run_impl('c03.py', {'tdicts': ios, 'scratch': scratch})['tdicts']
+    ent = lambda k, v: SEP2.join([k, 'S', v]) if isinstance(v, str) else SEP2.join([k, 'L'] + list(v))
+    odd_dicts = [[], [ent('@X@', '@Y@'), ent('@Y@', 'z')], [ent('@INPUT@', ['i 1']), ent('@INPUT0@', '@INPUT0@@OUTPUT@'), ent('@OUTPUT@', ['o', 'p'])],
+                 [ent('@OUTPUT@', ['@INPUT@']), ent('@OUTPUT0@', 'a@OUTDIR@'), ent('@OUTDIR@', '.')]]
+
+    def tmpl_case(kind):
+        j = rng.randrange(len(ios))
+        cmd = gen_tmpl_cmd(rng)
+        if kind == 'subst':
+            d = rng.choice(odd_dicts) if rng.random() < 0.1 else tds[j]
+            return ('subst', cmd + [MARK] + d)
+        sub = rng.choice(['', '', 'sub', 'a b'])
+        return ('evalcmd', ['..', '.', os.path.join('..', sub)] + cmd + [MARK] + tds[j] + [MARK] + ios[j][0] + [MARK] + ios[j][1] + [MARK, sub])
+    cases += [('subst', ['@INPUT@', 'x@OUTPUT@y', '@PLAINNAME@', 'a\\b', MARK] + tds[1]), ('subst', ['@INPUT@', '@OUTPUT1@', MARK] + tds[2]),
+              ('subst', ['@BASENAME@', MARK] + tds[2]), ('subst', ['@INPUT5@', MARK] + tds[1]), ('subst', ['x@INPUT@', MARK] + tds[2]),
+              ('subst', ['@OUTPUT@', MARK] + tds[0]), ('subst', ['a', 'b c', MARK]),
+              ('evalcmd', ['..', '.', '../sub', '@SOURCE_ROOT@/x', '@BUILD_ROOT@', '@CURRENT_SOURCE_DIR@\\f', '@OUTPUT@', 'C:\\a', MARK] + tds[1]
+               + [MARK, 'a.c', MARK, 'o.out', MARK, 'sub']),
+              ('bline', ['R', 'a b', 'c:d', MARK, 'i$m', MARK, 'x\\y', 'in', MARK, 'd1', MARK, 'o1', 'o2']),
+              ('bline', ['R', 'o', MARK, MARK, MARK, MARK]), ('bline', ['R', 'a|b', MARK, MARK, 'in', MARK, MARK]),
+              ('testcmd', [MARK, '/p/t', MARK, 'a b', '', '$x', MARK]), ('testcmd', ['wrap', '-x', MARK, '/py', 's.py', MARK, 'a\nb', MARK, 'extra'])]
+    for _ in range(nrand // 10):
+        cases.append(gen_bline(rng))
+        cases.append(tmpl_case('subst'))
+        cases.append(tmpl_case('evalcmd'))
+    for _ in range(nrand // 60):
+        cases.append(('testcmd', gen_list(rng, hi=2) + [MARK] + rng.choice([['/p/t'], ['/py', '/s/t.py']]) + [MARK] + gen_list(rng, hi=4) + [MARK] + gen_list(rng, hi=2)))
     ex = exhaustive_strings(META20, 3)
     ctx.extra['exhaustive'] = True
     ctx.extra['exhaustive_strings'] = {'alphabet': META20, 'maxlen': 3, 'count': len(ex), 'functions': ['shq', 'nq F', 'nq T', 'rspq']}
@@ -319,7 +381,6 @@ def run(ctx):
 
     impl = []
     CH = 100000
-    scratch = ctx.mkscratch()
     for i in range(0, len(cases), CH):
         impl += run_impl('c03.py', {'cases': cases[i:i + CH], 'scratch': scratch})['results']
     model = ctx.run_model(cases) if built else impl
@@ -348,6 +409,17 @@ def run(ctx):
                 found.append(('roundtrip:' + f['kind'], 'C03:roundtrip:%s:%s' % (f['kind'], json.dumps(f['list'], sort_keys=True)),
                               'quoting round trip fails on the implementation: %s' % json.dumps(f)[:600],
                               {'roundtrip': f['list'], 'failure': f}))
+
+    # for these functions the model's answer is what the theorems of Props/C03.v are about and the observable
+    # is the argument list itself: a disagreement is a concrete failing input
+    nmodel = 0
+    for d in ctx.disagreements:
+        fn, args = d['case']
+        if fn in ('subst', 'evalcmd', 'bline', 'testcmd', 'rule') and nmodel < 6:
+            nmodel += 1
+            found.append(('model:' + fn, 'C03:model:%s:%s' % (fn, json.dumps(args)),
+                          '%s: the implementation answers %s where the proven model answers %s for %s'
+                          % (fn, json.dumps(d['implementation'])[:250], json.dumps(d['model'])[:250], json.dumps(args)[:400]), {'case': [fn, args]}))
 
     # ================================================================ stream B: decoders vs the real thing
     if built:
@@ -445,6 +517,120 @@ def run(ctx):
                           {'roundtrip': f['list'], 'failure': f}))
     for l in lists:
         ctx.count(('rt', l['mode'], tuple(l['args'])))
+    # build lines: the REAL first line of a build statement, read by the reference path-mode decoder,
+    # must give back every name list (backslashes -> /, the established build-line rewrite)
+    if built:
+        bl = [gen_bline(rng)[1] for _ in range(8000 if thorough else 1200)]
+        bl += [['R', 'a b', 'c:d', MARK, 'i$m', MARK, 'x\\y', 'in', MARK, 'd1', MARK, 'o1', 'o2'], ['R', 'o', MARK, MARK, MARK, MARK]]
+        lines = run_impl('c03.py', {'cases': [('bline', a) for a in bl], 'scratch': scratch})['results']
+
+        def sections(a):
+            secs, cur = [], []
+            for x in a[1:]:
+                if x == MARK:
+                    secs.append(cur)
+                    cur = []
+                else:
+                    cur.append(x)
+            secs.append(cur)
+            return secs
+        okl = []
+        for a, ln in zip(bl, lines):
+            names = [x for sec in sections(a) for x in sec]
+            unrep = any('\n' in x or '\r' in x or '|' in x for x in names)
+            if ln.startswith('EXC:'):
+                if not unrep or ln != 'EXC:MesonException':
+                    found.append(('bline:writer_rejects', 'C03:bline:%s' % json.dumps(a), 'build line rejected: %s -> %s' % (json.dumps(a)[:300], ln), {'case': ['bline', a]}))
+                continue
+            if unrep:
+                found.append(('bline:unrepresentable_accepted', 'C03:bline:%s' % json.dumps(a), 'a name ninja cannot read on a build line was written: %s' % json.dumps(a)[:300], {'case': ['bline', a]}))
+                continue
+            if any(x == '' for x in names):
+                continue                              # an empty name vanishes from the line: not an argument position
+            okl.append((a, ln[1:]))
+        dec = E2E.decode_build_lines(ctx, [ln for _a, ln in okl])
+        for (a, ln), d in zip(okl, dec):
+            secs = sections(a)
+            want = dict(zip(('outs', 'implicit', 'ins', 'deps', 'orderdeps'), [[x.replace('\\', '/') for x in sec] for sec in secs]))
+            want['rule'] = a[0]
+            ctx.count(('obline', tuple(a)))
+            if d != want:
+                found.append(('bline:decodes_other', 'C03:bline:%s' % json.dumps(a), 'build line %r is read by ninja as %s, specified %s' % (ln, json.dumps(d), json.dumps(want)),
+                              {'case': ['bline', a], 'decoded': d, 'want': want}))
+        ctx.extra['oracle_build_lines'] = {'lines': len(bl), 'decoded': len(okl)}
+    # rule commands: the REAL NinjaRule command string / rspfile_content, expanded by the reference ninja
+    # evaluator in a statement environment and split by the REAL shell (resp. read by the reference @file
+    # reader), must be the rule's words with each $VAR replaced by the variable's words
+    if built:
+        venv = {'ARGS': ("-DA='a b' -O2 '$x'", ['-DA=a b', '-O2', '$x']), 'LINK_ARGS': ('', []), 'in': ("x.c 'y z.c'", ['x.c', 'y z.c']),
+                'out': ('x.o', ['x.o']), 'DEPFILE': ("'d f.d'", ['d f.d'])}
+        flat = []
+        for k, (v, _w) in venv.items():
+            flat += [k, v]
+        rl = []
+        for _ in range(4000 if thorough else 500):
+            def it():
+                if rng.random() < 0.4:
+                    return 'S$' + rng.choice(list(venv))
+                a = gen_arg(rng, nl=False)
+                return 'S' + (a if not a.startswith('$') and a != '&&' else 'w' + a)
+            rl.append([it() for _ in range(rng.randint(1, 3))] + [MARK] + [it() for _ in range(rng.randint(0, 4))])
+        rres = run_impl('c03.py', {'cases': [('rule', a) for a in rl], 'scratch': scratch})['results']
+        ev_cases, ev_idx = [], []
+        for i, (a, r) in enumerate(zip(rl, rres)):
+            f = r.split(SEP1)
+            if len(f) != 3 or not all(x.startswith('O') for x in f):
+                found.append(('rule:rejected', 'C03:rule:%s' % json.dumps(a), 'NinjaRule rejects a representable command: %s -> %s' % (json.dumps(a)[:300], r[:100]), {'case': ['rule', a]}))
+                continue
+            ev_cases += [('neval', [f[0][1:]] + flat), ('nrsp', [f[2][1:]] + flat)]
+            ev_idx.append(i)
+        evr = ctx.run_model(ev_cases)
+        words = lambda items: sum((venv[x[2:]][1] if x.startswith('S$') else [x[1:]] for x in items), [])
+        shj, shi = [], []
+        for n, i in enumerate(ev_idx):
+            a = rl[i]
+            k = a.index(MARK)
+            cmdr, rspr = evr[2 * n], evr[2 * n + 1]
+            ctx.count(('orule', tuple(a)))
+            if not cmdr.startswith('O') or not rspr.startswith('O'):
+                found.append(('rule:ninja_cannot_evaluate', 'C03:rule:%s' % json.dumps(a), 'rule command not evaluable by ninja: %s' % json.dumps(a)[:300], {'case': ['rule', a]}))
+                continue
+            # rspfile_content holds the args part only; $in/$ARGS values above are shell-quoted text, which the
+            # @file reader reads the same way for these values (no backslashes)
+            if untlist(rspr[1:]) != words(a[k + 1:]):
+                found.append(('rule:rsp_args_differ', 'C03:rule:%s' % json.dumps(a), 'rspfile_content of %s is read as %s, specified %s'
+                              % (json.dumps(a)[:300], json.dumps(untlist(rspr[1:]))[:300], json.dumps(words(a[k + 1:]))[:300]), {'case': ['rule', a]}))
+            shj.append(cmdr[1:])
+            shi.append(i)
+        # the first word of the command is a rule word, not the dumper: run it as arguments of the dumper
+        for i, g in zip(shi, tools.sh_split_many(shj)):
+            a = rl[i]
+            want = words([x for x in a if x != MARK])
+            if g != [want]:
+                found.append(('rule:sh_argv_differs', 'C03:rule:%s' % json.dumps(a), 'rule command of %s reaches the process as %s, specified %s'
+                              % (json.dumps(a)[:300], json.dumps(g)[:300], json.dumps(want)[:300]), {'case': ['rule', a]}))
+        ctx.extra['oracle_rules'] = {'rules': len(rl), 'run': len(shj)}
+    # @TEMPLATE@ clause on the REAL eval_custom_target_command: strings without @ only get the backslash
+    # rewrite, an element that is exactly @INPUT@ / @OUTPUT@ becomes the file list, nothing else moves
+    tcases = []
+    for _ in range(6000 if thorough else 1000):
+        j = rng.randrange(len(ios))
+        cmd = [rng.choice(['@INPUT@', '@OUTPUT@']) if rng.random() < 0.2 else gen_arg(rng).replace('@', 'a') for _ in range(rng.randint(0, 5))]
+        if ('@INPUT@' in cmd and not ios[j][0]) or ('@OUTPUT@' in cmd and not ios[j][1]):
+            continue
+        sub = rng.choice(['', 'sub'])
+        tcases.append((cmd, ios[j], ('evalcmd', ['..', '.', os.path.join('..', sub)] + cmd + [MARK] + tds[j] + [MARK] + ios[j][0] + [MARK] + ios[j][1] + [MARK, sub])))
+    tres = run_impl('c03.py', {'cases': [c for _a, _b, c in tcases], 'scratch': scratch})['results']
+    for (cmd, io, case), r in zip(tcases, tres):
+        want = []
+        for a in cmd:
+            want += io[0] if a == '@INPUT@' else io[1] if a == '@OUTPUT@' else [a]
+        want = [x.replace('\\', '/') for x in want]
+        got = untlist(r[1:]) if r.startswith('O') else r
+        ctx.count(('otmpl', tuple(case[1])))
+        if got != want:
+            found.append(('tmpl', 'C03:tmpl:%s' % json.dumps(case[1]), 'eval_custom_target_command rewrites more than the established rewrites: %s -> %s, expected %s'
+                          % (json.dumps(cmd)[:300], json.dumps(got)[:300], json.dumps(want)[:300]), {'case': list(case)}))
     exe_cases = [c[1] for c in CORPUS_EXE] + [gen_exe_case(rng)[1] for _ in range(6000 if thorough else 1500)]
     esc_cases = [['-DA=\\', '/DB=\\\\', '-I\\', 'x\\', '-D']] + [gen_list(rng, hi=6) for _ in range(3000 if thorough else 600)]
     res = run_impl('c03.py', {'oracle_exe': exe_cases, 'oracle_esc': esc_cases, 'scratch': scratch})
